@@ -142,6 +142,12 @@ type Conn struct {
 	// serverS belongs to the read loop once the handshake is over.
 	serverS Settings
 
+	// hdrBlock holds the fragments of a response header block that goes on in
+	// CONTINUATION frames, and hdrEndStream the stream its HEADERS frame ends
+	// with END_STREAM, zero if it does not. Both belong to the read loop.
+	hdrBlock     []byte
+	hdrEndStream uint32
+
 	state    connState
 	closeRef uint32
 
@@ -897,8 +903,23 @@ func (c *Conn) dispatch(fr *FrameHeader) bool {
 	defer r.release()
 
 	// END_STREAM is defined for HEADERS and DATA. The same bit on any other
-	// frame type means nothing and must be ignored (RFC 7540 4.1).
-	endStream := fr.Flags().Has(FlagEndStream) && (fr.Type() == FrameHeaders || fr.Type() == FrameData)
+	// frame type means nothing and must be ignored (RFC 7540 4.1). On HEADERS
+	// it takes effect once the header block is complete, which may be several
+	// CONTINUATION frames later (RFC 7540 6.2).
+	endStream := fr.Flags().Has(FlagEndStream) && fr.Type() == FrameData
+
+	if fr.Type() == FrameHeaders {
+		c.hdrEndStream = 0
+
+		if fr.Flags().Has(FlagEndStream) {
+			c.hdrEndStream = fr.Stream()
+		}
+	}
+
+	if (fr.Type() == FrameHeaders || fr.Type() == FrameContinuation) && fr.Flags().Has(FlagEndHeaders) {
+		endStream = c.hdrEndStream == fr.Stream()
+		c.hdrEndStream = 0
+	}
 
 	err := c.readStream(fr, r)
 	if err == nil && endStream && !r.statusSeen {
@@ -1518,8 +1539,19 @@ func (c *Conn) readStream(fr *FrameHeader, r *Ctx) (err error) {
 
 	switch fr.Type() {
 	case FrameHeaders, FrameContinuation:
-		h := fr.Body().(FrameWithHeaders)
-		err = c.readHeader(h.Headers(), r)
+		// A header block is one unit however many frames carry it: a field
+		// may be cut anywhere by a frame boundary, so nothing is decoded until
+		// END_HEADERS says the block is whole (RFC 7540 4.3).
+		if fr.Type() == FrameHeaders {
+			c.hdrBlock = c.hdrBlock[:0]
+		}
+
+		c.hdrBlock = append(c.hdrBlock, fr.Body().(FrameWithHeaders).Headers()...)
+
+		if fr.Flags().Has(FlagEndHeaders) {
+			err = c.readHeader(c.hdrBlock, r)
+			c.hdrBlock = c.hdrBlock[:0]
+		}
 	case FrameResetStream:
 		// The server gave up on the stream. Without this the request would sit
 		// there until MaxResponseTime, or forever if that check is disabled.
@@ -1580,16 +1612,22 @@ func (c *Conn) readHeader(b []byte, r *Ctx) error {
 
 	var regularSeen, statusSeen bool
 
+	// b is a whole header block, so a dynamic table size update is in its
+	// place before the first field and nowhere else (RFC 7541 4.2).
+	fields := 0
+
 	for len(b) > 0 {
-		b, err = dec.Next(hf, b)
+		b, err = dec.nextField(hf, true, fields, b)
 		if err != nil {
-			// the frame ended in a dynamic table size update: no field in hf
+			// the block ended in a dynamic table size update: no field in hf
 			if errors.Is(err, ErrUnexpectedSize) && len(b) == 0 {
 				break
 			}
 
 			return err
 		}
+
+		fields++
 
 		// A response carries exactly one pseudo-header, :status, and it must
 		// come before any regular field.
